@@ -32,6 +32,19 @@
 (* or the client goes away and the handler returns on the cancelled        *)
 (* context (Cancel).                                                       *)
 (*                                                                         *)
+(* What the code does that a reader might not expect (all in the model):   *)
+(*  - the rate limit is the OUTER layer: a request answered 503 by         *)
+(*    connLimit has already paid a token;                                  *)
+(*  - a request answered 429 still refreshes the recency of its address    *)
+(*    (cache.Get runs first): flooding keeps one's own bucket cached, it   *)
+(*    cannot evict it; evicting an address takes CacheSize OTHER addresses;*)
+(*  - an eviction hands the address a fresh full bucket on its next        *)
+(*    request (documented in RateLimitConfig) -- WindowBound says exactly  *)
+(*    how much that is worth;                                              *)
+(*  - a *rate.Limiter fetched before its eviction is still honoured by the *)
+(*    request that holds it ("orphan"): at most one extra admission per    *)
+(*    request that was between cache.Get and Allow at that moment.         *)
+(*                                                                         *)
 (* Atomic = TRUE serialises each request's passage through the middleware  *)
 (* (what a harness can replay one stimulus at a time); Atomic = FALSE is   *)
 (* every interleaving of the critical sections.                            *)
@@ -44,7 +57,8 @@ CONSTANTS
     Kinds,         \* subset of {"plain", "ws"}: ordinary calls / websocket upgrades
     CacheSize,     \* RateLimitConfig.CacheSize  (>= 1; lru.New panics on 0, the node config refuses it)
     Burst,         \* RateLimitConfig.Burst
-    Rate,          \* tokens per Tick (one Tick = 1 / RequestsPerSec... times Rate); 0 = the bucket never refills
+    Rate,          \* tokens a bucket gains per Tick (the driver runs the code at 1 request/s and lets Rate seconds pass
+                   \* per Tick); 0 = RequestsPerSec 0: the bucket never refills
     MaxConns,      \* maxConcurrentConns
     RateOn,        \* RateLimitConfig.Enabled
     Atomic,        \* see above
